@@ -28,7 +28,7 @@ PROPS = {
         id='C24', cluster='PoA', crate='h-poa', tag=24,
         n={'quick': 1500, 'thorough': 20000}, shard=100,
         theorems=['requests_next_height', 'produce_block_contract', 'interval_deadline', 'parse_flatten_inverse', 'op_okb_sound',
-                  'step_refines', 'step_passes', 'fstep_refines', 'frun_passes', 'produces_only_when_synced',
+                  'step_refines', 'step_passes', 'predefined_block_passes', 'fstep_refines', 'frun_passes', 'produces_only_when_synced',
                   'sync_published_iff_synced', 'sync_invb_meaning', 'block_time_vs_db_partial', 'resync_keeps_timestamp',
                   'block_time_vs_db_refuted', 'a1_during_run_refuted', 'exec_after_failed_import_refuted', 'no_timer_never_synced'],
         classify=_c24_classes,
@@ -52,7 +52,7 @@ PROPS = {
                      'announcements are handled by the sync task when the main task next yields to let the clock advance (or at the end of the '
                      'operation); the main task yields only on timers',
                      'manual production is driven through the hook, not through the request channel (no ensure_synced before it)',
-                     'no predefined blocks; the producer returns within production_timeout',
+                     'predefined blocks have times not below last_timestamp (produce_predefined_block does not check it)',
                      'heights stay below u32::MAX (next_height panics there)'],
     ),
 }
